@@ -644,5 +644,198 @@ theorem hide_requests {fx : Fixes} (hfx1 : fx.hiddenRoot = true) (hfx2 : fx.chai
           Bool.false_eq_true, if_false]
         exact finish t'' rfl rfl (chainSame_trans hcs1 (chainSame_wins hwins))
 
+
+/-! ### `tickit_window_show` -/
+
+/-- With the root window hidden nothing is owned and nothing is to be shown. -/
+theorem ownerAt_root_hidden {t : Tree} {r : Win} (hr : t.wins[0]? = some r) (hv : r.isVisible = false) (L C : Int) :
+    ownerAt t L C = none := by
+  unfold ownerAt; rw [ownerLoc, hr]; simp [hv]
+
+theorem cursorSpec_root_hidden {t : Tree} (h : wfB t = true) {r : Win} (hr : t.wins[0]? = some r)
+    (hv : r.isVisible = false) : cursorSpec t = none := by
+  cases hc : cursorSpec t with
+  | none => rfl
+  | some v =>
+    obtain ⟨L, C, s⟩ := v
+    obtain ⟨_, _, _, _, _, hat⟩ := (cursorSpec_some_iff h L C s).mp hc
+    rw [ownerAt_root_hidden hr hv] at hat; cases hat
+
+/-- What `tickit_window_show` does to the store. -/
+theorem show_struct {t t'' : Tree} {fuel win : Nat} {w : Win} (hh : WinTree.show t fuel win = .ok t'') (hw : Live t win w) :
+    (w.parent = none ∧ t''.wins = (WinTree.set t win { w with isVisible := true }).wins) ∨
+    (∃ p pw, w.parent = some p ∧ Live (WinTree.set t win { w with isVisible := true }) p pw ∧
+      t''.wins = (if pw.focusedChild.isNone && (w.focusedChild.isSome || w.isFocused) then
+                    WinTree.set (WinTree.set t win { w with isVisible := true }) p { pw with focusedChild := some win }
+                  else WinTree.set t win { w with isVisible := true }).wins) := by
+  unfold WinTree.show at hh
+  simp only [bind_ok] at hh
+  obtain ⟨t1, hm, w1, hg1, hh⟩ := hh
+  unfold WinTree.modify at hm
+  simp only [bind_ok, pure_ok] at hm
+  obtain ⟨w0, hg, ht1⟩ := hm
+  have := live_unique (get_ok.mp hg) hw; subst this
+  subst ht1
+  rw [get_set_self hw.1 (by exact hw.2)] at hg1
+  cases hg1
+  split at hh
+  · next p hp =>
+    right
+    have hp' : w0.parent = some p := hp
+    simp only [bind_ok] at hh
+    obtain ⟨pw, hgp, hh⟩ := hh
+    refine ⟨p, pw, hp', get_ok.mp hgp, ?_⟩
+    split at hh
+    · next hc =>
+      simp only [bind_ok, pure_ok] at hh
+      obtain ⟨t2, ht2, hh⟩ := hh
+      subst ht2
+      obtain ⟨hwins, _, _⟩ := expose_frame _ _ _ _ _ hh
+      rw [hwins]
+      have hc' : (pw.focusedChild.isNone && (w0.focusedChild.isSome || w0.isFocused)) = true := hc
+      rw [if_pos hc']
+    · next hc =>
+      simp only [bind_ok, pure_ok] at hh
+      obtain ⟨t2, ht2, hh⟩ := hh
+      subst ht2
+      obtain ⟨hwins, _, _⟩ := expose_frame _ _ _ _ _ hh
+      rw [hwins]
+      have hc' : ¬ (pw.focusedChild.isNone && (w0.focusedChild.isSome || w0.isFocused)) = true := hc
+      rw [if_neg hc']
+  · next hp =>
+    left
+    have hp' : w0.parent = none := hp
+    simp only [bind_ok, pure_ok] at hh
+    obtain ⟨t2, ht2, hh⟩ := hh
+    subst ht2
+    obtain ⟨hwins, _, _⟩ := expose_frame _ _ _ _ _ hh
+    exact ⟨hp', hwins⟩
+
+/-- `restore_requested` for `tickit_window_show` (repaired source). -/
+theorem show_requests {fx : Fixes} (hfx2 : fx.chainRestore = true) {t t' : Tree} {win : Nat}
+    (hg : Good15 t) (hh : showWin fx t win = .ok t') : Pending t' ∨ cursorSpec t' = cursorSpec t := by
+  unfold showWin at hh
+  simp only [bind_ok, pure_ok] at hh
+  obtain ⟨w, hgw, t'', h2, hh⟩ := hh
+  have hw := get_ok.mp hgw
+  obtain ⟨r0, hr0, hr0f, hr0r, hr0p, _, _⟩ := hg.rootWin.ex
+  obtain ⟨hinv, _, _, _, _, _, hsz, hflags, t1', hsb, hwins1⟩ :=
+    WinFlush.show_step encCell (snapshot t) t t'' win h2 hg.wfp hg.rootWin hg.nonempty hg.pos (invC_snapshot t)
+  have hwf'' := show_wf hg.wf h2
+  have hwinsf : t'.wins = t''.wins := by rw [← hh]; exact chainRestoreAfter_wins _ _ _ _
+  have hwf' : wfB t' = true := by rw [wfB_wins hwinsf]; exact hwf''
+  by_cases hrv : r0.isVisible = false
+  · -- the root window is hidden: nothing is owned before; whatever is owned afterwards is damaged
+    rw [cursorSpec_root_hidden hg.wf hr0 hrv]
+    cases hc : cursorSpec t' with
+    | none => exact .inr rfl
+    | some v =>
+      left
+      obtain ⟨L, C, s⟩ := v
+      obtain ⟨_, _, _, _, _, hat⟩ := (cursorSpec_some_iff hwf' L C s).mp hc
+      rw [WinFlush.ownerAt_congr t' t'' hwinsf] at hat
+      have hcov : Covered t''.root.damage L C := by
+        rcases hinv L C _ _ _ hat with hcv | hcv
+        · exact hcv
+        · unfold snapshot at hcv; rw [ownerAt_root_hidden hr0 hrv] at hcv; simp [encCell] at hcv
+      have hdne : t''.root.damage ≠ [] := by
+        intro hd; rw [hd] at hcov; exact RectSet.covered_nil L C hcov
+      have hpend'' : Pending t'' := by
+        rcases hflags with hr | ⟨a, b, _⟩
+        · have := hg.flagged (by rw [← hr]; exact hdne)
+          exact ⟨.inr (by rw [hr]; exact this), by rw [hr]; exact hg.later (.inl this)⟩
+        · exact ⟨.inr a, b⟩
+      -- the repair can only add to what is pending
+      rw [← hh]
+      unfold chainRestoreAfter
+      split
+      · exact hpend''
+      · split
+        · split
+          · unfold requestRestoreAbove; split
+            · exact ⟨.inl rfl, rfl⟩
+            · exact hpend''
+          · exact hpend''
+        · exact hpend''
+  · have hrv' : r0.isVisible = true := by simpa using hrv
+    have hroot'' : (t''.wins[0]?).map rootFace = (t.wins[0]?).map rootFace := by
+      rw [hwins1]
+      by_cases h0 : win = 0
+      · subst h0
+        have := hsb.self
+        rw [hr0] at this ⊢
+        cases h1 : t1'.wins[0]? with
+        | none => rw [h1] at this; simp at this
+        | some r1 =>
+          rw [h1] at this
+          simp [WinFlush.coreNoVis, rootFace] at this ⊢
+          -- visibility: the store after `show` has the root visible, as before
+          refine ⟨?_, this.1, this.2.1⟩
+          rcases show_struct h2 hw with ⟨_, hw''⟩ | ⟨p, _, hp, _, _⟩
+          · have h3 : t''.wins[0]? = some { w with isVisible := true } := by rw [hw'', set_lookup hw.1]; simp
+            rw [hwins1, h1] at h3
+            cases h3; exact hrv'.symm
+          · have := hw.1.symm.trans hr0; simp at this; subst this
+            rw [hr0p] at hp; cases hp
+      · exact core_rootFace (hsb.other 0 (fun h => h0 h.symm))
+    have hcs1 : ChainSame t (WinTree.set t win { w with isVisible := true }) :=
+      chainSame_set hw (by exact hw.2) (.inr ⟨rfl, rfl, rfl⟩)
+    have finish : ∀ tf : Tree, tf.wins = t''.wins → tf.root = t''.root → ChainSame t t'' →
+        Pending tf ∨ cursorSpec tf = cursorSpec t := by
+      intro tf hwf hrf hcs
+      have hInv : WinFlush.InvC encCell tf (snapshot t) := by
+        intro L C x l c ho
+        rw [WinFlush.ownerAt_congr tf t'' hwf] at ho
+        rw [hrf]; exact hinv L C x l c ho
+      refine requests_of_step hg (by rw [wfB_wins hwf]; exact hwf'') hInv ?_ (by rw [hwf]; exact hroot'')
+        (chainSame_trans hcs (chainSame_wins hwf))
+      rcases hflags with h | ⟨a, b, _⟩
+      · exact .inl (hrf.trans h)
+      · exact .inr ⟨by rw [hrf]; exact a, by rw [hrf]; exact b⟩
+    rcases show_struct h2 hw with ⟨hp, hw''⟩ | ⟨p, pw, hp, hpw, hwins⟩
+    · subst hh
+      simp only [hp, chainRestoreAfter]
+      exact finish t'' rfl rfl (chainSame_trans hcs1 (chainSame_wins hw''))
+    · have hpne : win ≠ p := by
+        intro hc; subst hc
+        have := (wf_parent hg.wf hw hp).1; omega
+      have hpw0 : t.wins[p]? = some pw := by
+        have := hpw.1; rw [set_lookup hw.1] at this; simpa [hpne] using this
+      by_cases hc : (pw.focusedChild.isNone && (w.focusedChild.isSome || w.isFocused)) = true
+      · simp only [hc, if_true] at hwins
+        have hfcn : pw.focusedChild = none := by
+          simp only [Bool.and_eq_true, Option.isNone_iff_eq_none] at hc; exact hc.1
+        have ha : t''.wins[p]? = some { pw with focusedChild := some win } := by
+          rw [hwins, set_lookup hpw.1]; simp
+        subst hh
+        simp only [hp, chainRestoreAfter, hpw0, ha, hfx2, hfcn, Bool.true_and]
+        unfold requestRestoreAbove
+        cases hgr : getRoot t'' (treeFuel t'') p with
+        | ok r => exact .inl ⟨.inl rfl, rfl⟩
+        | ub e =>
+          simp only []
+          have hoff : ¬ OnChain t p := by
+            intro ho
+            have h1 := getRoot_anc hg.wf (treeFuel t) p pw (Nat.lt_succ_of_lt (live_lt ⟨hpw0, hpw.2⟩)) ⟨hpw0, hpw.2⟩ (onChain_anc hg.wf ho)
+            have hcongr : ∀ i : Nat, (t''.wins[i]?).map rootWalk = (t.wins[i]?).map rootWalk := by
+              intro i
+              rw [hwins, rootWalk_set (w' := { pw with focusedChild := some win }) hpw.1 rfl i,
+                rootWalk_set (w' := { w with isVisible := true }) hw.1 rfl i]
+            have hf : treeFuel t'' = treeFuel t := by unfold treeFuel; rw [hsz]
+            have := (getRoot_congr hcongr (treeFuel t) p).mpr ⟨0, h1⟩
+            rw [← hf, hgr] at this
+            obtain ⟨_, h⟩ := this; cases h
+          refine finish t'' rfl rfl ?_
+          refine chainSame_trans hcs1 (chainSame_trans (chainSame_set hpw (by exact hpw.2) (.inl ?_)) (chainSame_wins hwins))
+          intro ho
+          exact hoff (onChain_kept_rev hg.wf (chainSame_kept hcs1 0) ho)
+      · have hc' : (pw.focusedChild.isNone && (w.focusedChild.isSome || w.isFocused)) = false := by simpa using hc
+        simp only [hc', Bool.false_eq_true, if_false] at hwins
+        have ha : t''.wins[p]? = some pw := by rw [hwins]; exact hpw.1
+        subst hh
+        simp only [hp, chainRestoreAfter, hpw0, ha, ne_eq, not_true_eq_false, decide_false, Bool.and_false,
+          Bool.false_eq_true, if_false]
+        exact finish t'' rfl rfl (chainSame_trans hcs1 (chainSame_wins hwins))
+
 end WinFocus
 end Tickit
